@@ -76,10 +76,18 @@ pub fn oracle_payload_reserved(p: &[u8], suffix: &[u8], reserved: u8) -> Result<
 
 /// reverse direction: a typed message reports the number it is encoded under
 pub fn oracle_reverse(row: &registry::MsgRow, m: &Message) -> Result<(), (String, String)> {
+    oracle_reverse_with(row, m, None)
+}
+/// `before`: the builder was used once before (for a message that was refused or built): the number a message is encoded
+/// under must still be its own
+pub fn oracle_reverse_with(row: &registry::MsgRow, m: &Message, before: Option<&Message>) -> Result<(), (String, String)> {
     if m.number() != Some(row.number) {
         return Err(("c14:number-method".into(), format!("variant {} reports number {:?}, table says {}", row.variant, m.number(), row.number)));
     }
     let mut b = MessageBuilder::new();
+    if let Some(d) = before {
+        let _ = catch(std::panic::AssertUnwindSafe(|| b.build_message(d).map(|f| f.len()).ok()));
+    }
     match b.build_message(m) {
         Ok(f) => {
             let n = get_bits(&f[3..], 0, 12).unwrap() as u16;
@@ -104,7 +112,7 @@ pub fn run(ctx: &Ctx, replay: Option<&J>) -> CheckResult {
         with and without trailing bytes and with zero / random reserved header bits, plus payloads of 0 and 1 byte under all 64 reserved-bit patterns; supported set = rows of the table in src/msg/message.rs (scanned at build \
         time) which must equal the msgNNNN features and the all_msgs list of Cargo.toml; oracle: n not supported => MsgNotSupported{n}; supported \
         => variant of n or Corrupt; L<2 <=> Empty; typed.number()==n; reverse: every variant's default and decoded golden message is encoded \
-        under its own number. all cases non-trivial; distinct = (n, shape, repetition)"
+        under its own number, also on a builder that was used once before (refused early / late, long frame). all cases non-trivial; distinct = (n, shape, repetition)"
         .to_string();
     let assumptions = vec![
         "the supported set is read from the repository's own table and Cargo.toml, cross-checked against each other".to_string(),
@@ -119,6 +127,14 @@ pub fn run(ctx: &Ctx, replay: Option<&J>) -> CheckResult {
             let s = unhex(case["suffix"].as_str().unwrap_or("")).unwrap_or_default();
             if let Err((sig, msg)) = oracle_payload_reserved(&p, &s, case["reserved"].as_u64().unwrap_or(0) as u8) {
                 vs.push(Violation { property: "C14".into(), signature: sig, message: msg, case: case.clone() });
+            }
+        } else if case["kind"] == "reverse-used-builder" {
+            let n = case["number"].as_u64().unwrap_or(0) as u16;
+            let before = case.get("before").and_then(crate::value::Value::from_json).and_then(|t| crate::msggen::value_to_message(&t).ok());
+            if let (Some(row), Some(m)) = (MSG_TABLE.iter().find(|r| r.number == n), registry::default_message(n)) {
+                if let Err((sig, msg)) = oracle_reverse_with(row, &m, before.as_ref()) {
+                    vs.push(Violation { property: "C14".into(), signature: sig, message: msg, case: case.clone() });
+                }
             }
         } else if case["kind"] == "reverse-default" {
             let n = case["number"].as_u64().unwrap_or(0) as u16;
@@ -235,6 +251,36 @@ pub fn run(ctx: &Ctx, replay: Option<&J>) -> CheckResult {
                 }
                 Err((sig, _)) if sig == "c14:default-not-encodable" => ev.class("reverse/default-refused-by-encoder"),
                 Err((sig, msg)) => vs.push(Violation { property: "C14".into(), signature: sig, message: msg, case: json!({"kind":"reverse-default","number":row.number}) }),
+            }
+        }
+    }
+    // the same on a builder that was used once before, for every kind of first use (refused early / late, long frame)
+    {
+        let pool = crate::checks::c12::pool(ctx.seed);
+        let dist = crate::checks::c12::disturbers(ctx.seed);
+        for row in MSG_TABLE {
+            if let Some(m) = registry::default_message(row.number) {
+                for di in dist.iter() {
+                    let d = &pool[*di];
+                    ev.eval();
+                    match oracle_reverse_with(row, &m, Some(&d.msg)) {
+                        Ok(()) => {
+                            ev.distinct_by_construction += 1;
+                            ev.class("reverse/default-on-a-used-builder");
+                        }
+                        Err((sig, _)) if sig == "c14:default-not-encodable" => {}
+                        Err((sig, msg)) => {
+                            if !vs.iter().any(|v| v.signature == sig) {
+                                vs.push(Violation {
+                                    property: "C14".into(),
+                                    signature: sig,
+                                    message: format!("builder used before for [{}]: {}", d.label, msg),
+                                    case: json!({"kind":"reverse-used-builder","number":row.number,"before":d.tree.to_json()}),
+                                });
+                            }
+                        }
+                    }
+                }
             }
         }
     }
